@@ -387,6 +387,18 @@ func (a *Act) modelCall2(ctx *blockCtx, key string, callee *ssa.Function, c *ssa
 			}
 		}
 	case "encoding/json.Marshal":
+		if bv, ok := g.boxed[args[0].T]; ok && bv.G != nil && strings.HasSuffix(bv.G.String(), "task.Results") {
+			// the JSON report (C20): marshalling a task.Results value never fails (strings, ints and
+			// bools only) and yields resultsJSON of the slice: an assumed, injective-by-convention
+			// encoding driven by the struct tags task/results/skipped and cmd/stdout/stderr/status
+			if rj := g.w.specFuns["resultsJSON"]; rj != nil {
+				g.usedAssumed["encoding/json.Marshal of task.Results never fails and yields resultsJSON(results) (field tags task, results, skipped / cmd, stdout, stderr, status, in slice order)"] = true
+				bs := a.freshVal(types.NewSlice(types.Typ[types.Byte]), "marshalled")
+				errv := Val{T: "iface_nil", S: "Iface", G: types.Universe.Lookup("error").Type()}
+				g.fact("(= (" + g.strofFn() + " " + bs.T + ") (" + rj.SMTName + " " + bv.T + "))")
+				return Val{}, []Val{bs, errv}, true
+			}
+		}
 		if bv, ok := g.boxed[args[0].T]; ok && bv.G != nil {
 			if mt, ok := bv.G.Underlying().(*types.Map); ok && g.w.sortOf(mt.Key()) == "Str" && g.w.sortOf(mt.Elem()) == "Str" {
 				mm := g.w.specFuns["marshalMap"]
